@@ -5,11 +5,27 @@ import LibfiveProofs.SerializeTree
 
 namespace Libfive.Serial
 
-/-- the loaded shape `ls` is the stored shape `s`: same name and doc, no variable names, and its
-    root is the loader's copy of `s`'s root (same stream position) -/
+/-- what the variable section of a shape loads as, given the id table `ids` and the loader's table
+    `trees` at the moment the section is written: every named variable that is in the id table, in
+    order, bound to the loader's copy of that variable (same stream position), under its name -/
+def varsOf (ids trees : List NodeId) : List (NodeId × List Byte) → List (NodeId × List Byte)
+  | [] => []
+  | (v, nm) :: r =>
+    match posOf ids v with
+    | some p =>
+      (match trees[p]? with
+       | some m => (m, nm) :: varsOf ids trees r
+       | none => varsOf ids trees r)
+    | none => varsOf ids trees r
+
+/-- the loaded shape `ls` is the stored shape `s`: same name and doc; and, with `ids1`/`trees1` the
+    tables as they were when the shape was finished (prefixes of the final tables), its root is the
+    loader's copy of `s`'s root (same stream position) and its variable map is `varsOf` of `s.vars` -/
 def ShapeMatch (ids trees : List NodeId) (s : Shape) (ls : LShape) : Prop :=
-  ls.name = s.name ∧ ls.doc = s.doc ∧ ls.vars = [] ∧
-  ∃ p : Nat, ids[p]? = some s.tree ∧ trees[p]? = some ls.tree
+  ls.name = s.name ∧ ls.doc = s.doc ∧
+  ∃ (ids1 trees1 ie te : List NodeId), ids = ids1 ++ ie ∧ trees = trees1 ++ te ∧
+    (∃ p : Nat, ids1[p]? = some s.tree ∧ trees1[p]? = some ls.tree) ∧
+    ls.vars = varsOf ids1 trees1 s.vars
 
 theorem get?_append_old {α : Type} (l e : List α) (y : α) (p : Nat) (h : l[p]? = some y) :
     (l ++ e)[p]? = some y := by
@@ -18,8 +34,9 @@ theorem get?_append_old {α : Type} (l e : List α) (y : α) (p : Nat) (h : l[p]
 
 theorem ShapeMatch.mono {ids trees : List NodeId} {s : Shape} {ls : LShape}
     (h : ShapeMatch ids trees s ls) (ie te : List NodeId) : ShapeMatch (ids ++ ie) (trees ++ te) s ls := by
-  obtain ⟨h1, h2, h3, p, h4, h5⟩ := h
-  exact ⟨h1, h2, h3, p, get?_append_old _ _ _ _ h4, get?_append_old _ _ _ _ h5⟩
+  obtain ⟨h1, h2, ids1, trees1, ie1, te1, e1, e2, h3, h4⟩ := h
+  exact ⟨h1, h2, ids1, trees1, ie1 ++ ie, te1 ++ te, by rw [e1, List.append_assoc],
+    by rw [e2, List.append_assoc], h3, h4⟩
 
 theorem eq_dropLast_append {α : Type} : ∀ (l : List α) (a : α), l.getLast? = some a → l = l.dropLast ++ [a]
   | [], a, h => by simp at h
@@ -102,37 +119,123 @@ theorem serNodes_last {heap : NodeId → Node} (root : NodeId) :
 
 /-! ## computation lemmas for `readShape` -/
 
-theorem varLoop_end (fuel : Nat) (rest : List Byte) (trees : List NodeId) (lheap : List Node) (log : List Err) :
-    varLoop (fuel + 1) ⟨⟨END_OF_ITEM :: rest, false⟩, trees, lheap, log⟩ []
-      = .ok ([], ⟨⟨rest, false⟩, trees, lheap, log⟩) := by
-  simp [varLoop, IStream.get]
+theorem varLoop_end (fuel : Nat) (rest : List Byte) (trees : List NodeId) (lheap : List Node) (log : List Err)
+    (acc : List (NodeId × List Byte)) :
+    varLoop (fuel + 1) ⟨⟨END_OF_ITEM :: rest, false⟩, trees, lheap, log⟩ acc
+      = .ok (acc, ⟨⟨rest, false⟩, trees, lheap, log⟩) := by
+  simp [varLoop, IStream.peek, IStream.get]
 
-theorem readShape_ref (F : Folder) (name doc : List Byte) (p : Nat) (a : NodeId) (rest : List Byte)
-    (trees : List NodeId) (lheap : List Node) (log : List Err)
-    (hp : p < 4294967296) (ha : trees[p]? = some a) :
-    readShape F TAG_REF ⟨⟨writeString name ++ (writeString doc ++ (u32le (UInt32.ofNat p)
-        ++ END_OF_ITEM :: rest)), false⟩, trees, lheap, log⟩
-      = .ok ({ tree := a, name := name, doc := doc, vars := [] }, ⟨⟨rest, false⟩, trees, lheap, log⟩) := by
-  have ht : (TAG_REF = TAG_FULL ∨ TAG_REF = TAG_REF) := Or.inr rfl
-  simp [readShape, DState.checkPos, DState.says, readString_write, readU32_u32le, treeAt,
-    u32_toNat_ofNat p hp, ha, varLoop_end]
+theorem peek_writeString (s data : List Byte) :
+    IStream.peek ⟨writeString s ++ data, false⟩ = (some QUOTE, ⟨writeString s ++ data, false⟩) := by
+  simp [IStream.peek, writeString]
+
+theorem quote_ne_end : QUOTE ≠ END_OF_ITEM := by decide
+
+/-- one entry of the variable section -/
+theorem varLoop_entry (fuel : Nat) (name : List Byte) (p : Nat) (hp : p < 4294967296) (m : NodeId)
+    (data : List Byte) (trees : List NodeId) (lheap : List Node) (log : List Err)
+    (acc : List (NodeId × List Byte)) (ha : trees[p]? = some m) (hfresh : acc.any (·.1 == m) = false) :
+    varLoop (fuel + 1) ⟨⟨writeString name ++ (u32le (UInt32.ofNat p) ++ data), false⟩, trees, lheap, log⟩ acc
+      = varLoop fuel ⟨⟨data, false⟩, trees, lheap, log⟩ (acc ++ [(m, name)]) := by
+  rw [varLoop]
+  simp only [Bool.false_eq_true, if_false, peek_writeString, quote_ne_end, readString_write, DState.says,
+    List.append_nil, readU32_u32le, treeAt, u32_toNat_ofNat p hp, ha, hfresh, varsInsert]
+
+theorem writeString_len (s : List Byte) : 2 ≤ (writeString s).length := by simp [writeString]
+
+/-- **variable section.** What `serVars` writes against the id table `ids` is read back by the
+    (fixed) variable loop as `varsOf`: no message, stream exactly after the END_OF_ITEM. -/
+theorem varLoop_serVars {heap : NodeId → Node} {ids trees : List NodeId} {lheap : List Node}
+    (hinv : Inv heap ids lheap trees) (hsz : ids.length < 4294967296) :
+    ∀ (vs acc : List (NodeId × List Byte)) (rest : List Byte) (log : List Err) (fuel : Nat),
+    (vs.map (·.1)).Nodup →
+    (∀ (v : NodeId) (nm : List Byte) (p : Nat) (m : NodeId), (v, nm) ∈ vs → posOf ids v = some p →
+        trees[p]? = some m → acc.any (·.1 == m) = false) →
+    (serVars ids vs).length + 1 ≤ fuel →
+    varLoop fuel ⟨⟨serVars ids vs ++ END_OF_ITEM :: rest, false⟩, trees, lheap, log⟩ acc
+      = .ok (acc ++ varsOf ids trees vs, ⟨⟨rest, false⟩, trees, lheap, log⟩) := by
+  intro vs
+  induction vs with
+  | nil =>
+    intro acc rest log fuel _ _ hf
+    cases fuel with
+    | zero => simp at hf
+    | succ f => simpa [serVars, varsOf] using varLoop_end f rest trees lheap log acc
+  | cons x r ih =>
+    obtain ⟨v, nm⟩ := x
+    intro acc rest log fuel hnd hacc hf
+    have hnd0 : (v :: r.map (·.1)).Nodup := hnd
+    have hnd' := List.nodup_cons.mp hnd0
+    have hacc' : ∀ (v' : NodeId) (nm' : List Byte) (p : Nat) (m : NodeId), (v', nm') ∈ r → posOf ids v' = some p →
+        trees[p]? = some m → acc.any (·.1 == m) = false :=
+      fun v' nm' p m hm => hacc v' nm' p m (by simp [hm])
+    cases hpos : posOf ids v with
+    | none =>
+      have := ih acc rest log fuel hnd'.2 hacc' (by simpa [serVars, hpos] using hf)
+      simpa [serVars, varsOf, hpos] using this
+    | some p =>
+      have hp1 : ids[p]? = some v := posOf_some hpos
+      have hp2 : p < ids.length := posOf_lt hpos
+      have hp3 : p < trees.length := by rw [hinv.len]; exact hp2
+      have ha : trees[p]? = some trees[p] := by simp [hp3]
+      have hlen := writeString_len nm
+      cases fuel with
+      | zero => simp at hf
+      | succ f =>
+        have hf' : (serVars ids r).length + 1 ≤ f := by
+          simp [serVars, hpos, u32le] at hf; omega
+        have hfresh := hacc v nm p trees[p] (by simp) hpos ha
+        have hacc2 : ∀ (v' : NodeId) (nm' : List Byte) (p' : Nat) (m' : NodeId), (v', nm') ∈ r →
+            posOf ids v' = some p' → trees[p']? = some m' →
+            (acc ++ [(trees[p], nm)]).any (·.1 == m') = false := by
+          intro v' nm' p' m' hm hp' hm'
+          have h1 := hacc' v' nm' p' m' hm hp' hm'
+          have hne : trees[p] ≠ m' := by
+            intro e
+            have : p = p' := hinv.inj p p' m' (e ▸ ha) hm'
+            subst this
+            have hv : ids[p]? = some v' := posOf_some hp'
+            rw [hp1] at hv
+            have : v = v' := Option.some.inj hv
+            exact hnd'.1 (by rw [this]; exact List.mem_map.mpr ⟨(v', nm'), hm, rfl⟩)
+          simp [List.any_append, h1, hne]
+        have step := varLoop_entry f nm p (by omega) trees[p] (serVars ids r ++ END_OF_ITEM :: rest)
+          trees lheap log acc ha hfresh
+        have := ih (acc ++ [(trees[p], nm)]) rest log f hnd'.2 hacc2 hf'
+        simp only [serVars, hpos, varsOf, ha, List.append_assoc] at *
+        rw [step, this]
+        simp
+
+theorem readShape_ref (F : Folder) (name doc : List Byte) (p : Nat) (a : NodeId) (vdata rest : List Byte)
+    (trees : List NodeId) (lheap : List Node) (log : List Err) (lv : List (NodeId × List Byte))
+    (hp : p < 4294967296) (ha : trees[p]? = some a)
+    (hv : varLoop ((u32le (UInt32.ofNat p) ++ vdata).length + 1) ⟨⟨vdata, false⟩, trees, lheap, log⟩ []
+      = .ok (lv, ⟨⟨rest, false⟩, trees, lheap, log⟩)) :
+    readShape F TAG_REF ⟨⟨writeString name ++ (writeString doc ++ (u32le (UInt32.ofNat p) ++ vdata)), false⟩,
+        trees, lheap, log⟩
+      = .ok ({ tree := a, name := name, doc := doc, vars := lv }, ⟨⟨rest, false⟩, trees, lheap, log⟩) := by
+  simp only [readShape, DState.checkPos, DState.says, readString_write, readU32_u32le, treeAt,
+    u32_toNat_ofNat p hp, ha, Bool.false_eq_true, if_false, List.append_nil, or_true, if_true, hv]
 
 theorem tag_full_ne_ref : TAG_FULL ≠ TAG_REF := by decide
 
-theorem readShape_full (F : Folder) (name doc data rest : List Byte) (t : NodeId)
-    (trees trees' : List NodeId) (lheap lheap' : List Node) (log : List Err)
+theorem readShape_full (F : Folder) (name doc data vdata rest : List Byte) (t : NodeId)
+    (trees trees' : List NodeId) (lheap lheap' : List Node) (log : List Err) (lv : List (NodeId × List Byte))
     (hloop : clauseLoop F (data.length + 1) ⟨⟨data, false⟩, trees, lheap, log⟩
-      = .ok (false, ⟨⟨END_OF_ITEM :: rest, false⟩, trees', lheap', log⟩))
-    (hlast : trees'.getLast? = some t) :
+      = .ok (false, ⟨⟨vdata, false⟩, trees', lheap', log⟩))
+    (hlast : trees'.getLast? = some t)
+    (hv : varLoop (data.length + 1) ⟨⟨vdata, false⟩, trees', lheap', log⟩ []
+      = .ok (lv, ⟨⟨rest, false⟩, trees', lheap', log⟩)) :
     readShape F TAG_FULL ⟨⟨writeString name ++ (writeString doc ++ data), false⟩, trees, lheap, log⟩
-      = .ok ({ tree := t, name := name, doc := doc, vars := [] }, ⟨⟨rest, false⟩, trees', lheap', log⟩) := by
-  simp [readShape, DState.checkPos, DState.says, readString_write, tag_full_ne_ref, hloop, hlast, varLoop_end]
+      = .ok ({ tree := t, name := name, doc := doc, vars := lv }, ⟨⟨rest, false⟩, trees', lheap', log⟩) := by
+  simp only [readShape, DState.checkPos, DState.says, readString_write, tag_full_ne_ref, hloop, hlast,
+    Bool.false_eq_true, if_false, List.append_nil, true_or, if_true, hv]
 
 /-- **one shape.** -/
 theorem readShape_serShape (F : Folder) (heap : NodeId → Node) (hax : AxesUnique heap) (fuelW : Nat)
     (s : Shape) (ids ids' : List NodeId) (bytes rest : List Byte)
     (trees : List NodeId) (lheap : List Node) (log : List Err)
-    (hser : serShape heap fuelW ids s = .ok (bytes, ids')) (hv : s.vars = [])
+    (hser : serShape heap fuelW ids s = .ok (bytes, ids')) (hv : (s.vars.map (·.1)).Nodup)
     (hpl : ∀ n ∈ walk heap fuelW s.tree, nodePlain heap n = true)
     (hrl : RootLast heap fuelW s.tree) (hsz : ids'.length < 4294967296)
     (hinv : Inv heap ids lheap trees) :
@@ -143,21 +246,26 @@ theorem readShape_serShape (F : Folder) (heap : NodeId → Node) (hax : AxesUniq
       Inv heap ids' (lheap ++ le) (trees ++ te) ∧ ShapeMatch ids' (trees ++ te) s ls := by
   cases hpos : posOf ids s.tree with
   | some p =>
-    simp only [serShape, hpos, hv, serVars, List.append_nil] at hser
+    simp only [serShape, hpos] at hser
     injection hser with hser; injection hser with hb hi
     subst hb; subst hi
     have hp1 : ids[p]? = some s.tree := posOf_some hpos
     have hp2 : p < ids.length := posOf_lt hpos
     have hp3 : p < trees.length := by rw [hinv.len]; exact hp2
     have ha : trees[p]? = some trees[p] := by simp [hp3]
-    refine ⟨TAG_REF, writeString s.name ++ (writeString s.doc ++ (u32le (UInt32.ofNat p) ++ [END_OF_ITEM])),
-      [], [], [], { tree := trees[p], name := s.name, doc := s.doc, vars := [] },
+    have hvars := varLoop_serVars hinv hsz s.vars [] rest log
+      ((u32le (UInt32.ofNat p) ++ (serVars ids s.vars ++ END_OF_ITEM :: rest)).length + 1) hv
+      (by intros; rfl) (by simp; omega)
+    refine ⟨TAG_REF, writeString s.name ++ (writeString s.doc ++ (u32le (UInt32.ofNat p) ++
+        (serVars ids s.vars ++ [END_OF_ITEM]))),
+      [], [], [], { tree := trees[p], name := s.name, doc := s.doc, vars := varsOf ids trees s.vars },
       by simp, by simp, ?_, by simpa using hinv, ?_⟩
-    · have := readShape_ref F s.name s.doc p trees[p] rest trees lheap log (by omega) ha
+    · have := readShape_ref F s.name s.doc p trees[p] (serVars ids s.vars ++ END_OF_ITEM :: rest) rest
+        trees lheap log _ (by omega) ha (by simpa using hvars)
       simpa [List.append_assoc] using this
-    · exact ⟨rfl, rfl, rfl, p, hp1, by simpa using ha⟩
+    · exact ⟨rfl, rfl, ids, trees, [], [], by simp, by simp, ⟨p, hp1, ha⟩, rfl⟩
   | none =>
-    simp only [serShape, hpos, hv, serVars, List.append_nil] at hser
+    simp only [serShape, hpos] at hser
     cases hst : serTree heap fuelW ids s.tree with
     | error e => simp [hst] at hser
     | ok r =>
@@ -174,10 +282,10 @@ theorem readShape_serShape (F : Folder) (heap : NodeId → Node) (hax : AxesUniq
       obtain ⟨ie, hie⟩ := serNodes_prefix _ hst'
       have hlastId : ids1.getLast? = some s.tree := by
         rw [hw] at hst'; exact serNodes_last s.tree pre hst' hnotin hpre
+      let vdata := serVars ids1 s.vars ++ END_OF_ITEM :: rest
+      let data := bs ++ END_OF_ITEM :: vdata
       obtain ⟨te, le, hloop, hinv1⟩ := clauseLoop_serNodes F heap hax (walk heap fuelW s.tree) ids ids1 bs
-        (END_OF_ITEM :: rest) trees lheap log ((bs ++ END_OF_ITEM :: END_OF_ITEM :: rest).length + 1)
-        hst' hpl hsz hinv (by simp)
-      -- the last entry of the loader's table is the copy of the root
+        vdata trees lheap log (data.length + 1) hst' hpl hsz hinv (by simp [data])
       have hlen : (trees ++ te).length = ids1.length := hinv1.len
       have hne : ids1 ≠ [] := by intro e; rw [e] at hlastId; simp at hlastId
       have hpos1 : 0 < ids1.length := List.length_pos_iff.mpr hne
@@ -187,13 +295,16 @@ theorem readShape_serShape (F : Folder) (heap : NodeId → Node) (hax : AxesUniq
       obtain ⟨t, ht⟩ : ∃ t, (trees ++ te)[ids1.length - 1]? = some t := ⟨_, List.getElem?_eq_getElem hlt⟩
       have htl : (trees ++ te).getLast? = some t := by
         rw [List.getLast?_eq_getElem?, hlen]; exact ht
-      refine ⟨TAG_FULL, writeString s.name ++ (writeString s.doc ++ (bs ++ [END_OF_ITEM, END_OF_ITEM])),
-        ie, te, le, { tree := t, name := s.name, doc := s.doc, vars := [] },
+      have hvars := varLoop_serVars hinv1 hsz s.vars [] rest log (data.length + 1) hv
+        (by intros; rfl) (by simp [data, vdata]; omega)
+      refine ⟨TAG_FULL, writeString s.name ++ (writeString s.doc ++ (bs ++ [END_OF_ITEM] ++
+          (serVars ids1 s.vars ++ [END_OF_ITEM]))),
+        ie, te, le, { tree := t, name := s.name, doc := s.doc, vars := varsOf ids1 (trees ++ te) s.vars },
         by simp, hie, ?_, hinv1, ?_⟩
-      · have := readShape_full F s.name s.doc (bs ++ END_OF_ITEM :: END_OF_ITEM :: rest) rest _
-          trees (trees ++ te) lheap (lheap ++ le) log hloop htl
-        simpa [List.append_assoc] using this
-      · exact ⟨rfl, rfl, rfl, ids1.length - 1, hidx, ht⟩
+      · have := readShape_full F s.name s.doc data vdata rest t
+          trees (trees ++ te) lheap (lheap ++ le) log _ hloop htl (by simpa using hvars)
+        simpa [data, vdata, List.append_assoc] using this
+      · exact ⟨rfl, rfl, ids1, trees ++ te, [], [], by simp, by simp, ⟨ids1.length - 1, hidx, ht⟩, rfl⟩
 
 /-- pointwise relation between the stored and the loaded shape lists (same length, same order) -/
 inductive AllMatch (R : Shape → LShape → Prop) : List Shape → List LShape → Prop
@@ -203,7 +314,7 @@ inductive AllMatch (R : Shape → LShape → Prop) : List Shape → List LShape 
 
 /-- hypotheses on one shape of the archive -/
 def ShapeOK (heap : NodeId → Node) (fuelW : Nat) (s : Shape) : Prop :=
-  s.vars = [] ∧ (∀ n ∈ walk heap fuelW s.tree, nodePlain heap n = true) ∧ RootLast heap fuelW s.tree
+  (s.vars.map (·.1)).Nodup ∧ (∀ n ∈ walk heap fuelW s.tree, nodePlain heap n = true) ∧ RootLast heap fuelW s.tree
 
 /-- **shape lists.** -/
 theorem readShapes_serShapes (F : Folder) (heap : NodeId → Node) (hax : AxesUnique heap) (fuelW : Nat) :
